@@ -1,6 +1,11 @@
 import StsModel.Drv.Ranges
 import StsModel.Drv.Stage
 import StsModel.Drv.LogFmt
+import StsModel.Drv.ChunkBin
+import StsModel.Drv.Scan
+import StsModel.Drv.Conf
+import StsModel.Drv.Send
+import StsModel.Drv.Queue
 namespace Sts.Drv
 
 def main (args : List String) : IO UInt32 :=
@@ -9,8 +14,14 @@ def main (args : List String) : IO UInt32 :=
   | ["stage"] => run stageStep {}
   | ["logfmt"] => run logfmtStep {}
   | ["logfmt-orig"] => run logfmtOrigStep {}
+  | ["chunkbin"] => run chunkbinStep {}
+  | ["scan"] => run scanStep {}
+  | ["conf"] => run confStep {}
+  | ["send"] => run sendStep {}
+  | ["queue"] => run queueStep ([], [])
+  | ["queuep"] => run queueStep ([], [])
   | _ => do
-    IO.eprintln "usage: stsdrv <component>   (ranges)"
+    IO.eprintln "usage: stsdrv <component>   (ranges, stage, logfmt, chunkbin, scan, conf, send, queue, queuep)"
     return 2
 
 end Sts.Drv
